@@ -95,7 +95,7 @@ def static_labels(code):
 def main(tier, seed):
     run = core.Run("C05", tier, seed, "proof")
     core.setup_impl_import()
-    ass = core.standard_proof_phase(run, "C05", None, "PV.Props.C05", extra_targets=["theories/Valid/Diff.vo", "theories/Valid/ResolveSem.vo"])
+    ass = core.standard_proof_phase(run, "C05", None, "PV.Props.C05", extra_targets=["theories/Valid/Diff.vo", "theories/Valid/ResolveSem.vo", "theories/Valid/ResolveCalls.vo"])
     rng = run.rng
     n = 50 if tier == "quick" else 700
     progs = []
@@ -155,8 +155,12 @@ def main(tier, seed):
     try:
         notfrag = core.coq_mismatches("c05f", "From Coq Require Import PrimFloat.\nFrom PV Require Import IC10.Values IC10.Machine IC10.FloatAlg Valid.Resolve Valid.ResolveSem.",
                                       "fun c => frag (fst c)", glue_cases, shard=25)
+        notcalls = core.coq_mismatches("c05fc", "From Coq Require Import PrimFloat.\nFrom PV Require Import IC10.Values IC10.Machine IC10.FloatAlg Valid.Resolve.\nFrom PV Require Valid.ResolveCalls.",
+                                       "fun c => ResolveCalls.frag (fst c)", glue_cases, shard=25)
+        infrag = (set(range(len(glue_cases))) - set(notfrag)) | (set(range(len(glue_cases))) - set(notcalls))
         kinds["pairs_in_call_free_fragment"] = len(glue_cases) - len(notfrag)
-        kinds["pairs_decided_by_semantic_theorem"] = len(set(range(len(glue_cases))) - set(notfrag) - set(bad))
+        kinds["pairs_in_leaf_call_fragment"] = len(glue_cases) - len(notcalls)
+        kinds["pairs_decided_by_semantic_theorem"] = len(infrag - set(bad))
     except core.CoqEvalError as e:
         run.note("fragment evaluation failed: " + str(e)[-200:])
     for i in bad:
